@@ -107,11 +107,27 @@ _CANCEL_SELF = {
         [{"op": "yield", "x": "x2", "s": {"new": {"item": [0, 4, {"set": 4}]}}}, {"op": "return", "e": {"var": "x2"}}]],
     "params": {"kinds": {"0": {"raise": [1, 1001], "via_cancel": True}}},
 }
+# tasks whose value is a future they never yielded (`return other.asynq(...)`): outermost call, yielded dependency, nested
+# synchronous call; the scheduler is as clean afterwards as after any other outcome (model-blind class: monitors only)
+_RETURNS_FUTURE = {
+    "roots": [
+        [{"op": "let", "h": "h1", "f": {"task": [{"op": "return", "e": 1}]}}, {"op": "return", "e": {"handle": "h1"}}],
+        [{"op": "probe"}, {"op": "yield", "x": "x1", "s": {"new": {"task": [
+            {"op": "let", "h": "h2", "f": {"task": [{"op": "yield", "x": "a1", "s": {"new": {"item": [0, 1, {"set": 1}]}}}, {"op": "return", "e": {"var": "a1"}}]}},
+            {"op": "return", "e": {"handle": "h2"}}]}}},
+         {"op": "probe"}, {"op": "return", "e": 2}],
+        [{"op": "let", "h": "h3", "f": {"task": [{"op": "let", "h": "h4", "f": {"const": 5}}, {"op": "return", "e": {"tuple": [{"handle": "h4"}, 7]}}]}},
+         {"op": "sync", "x": "x2", "h": "h3"}, {"op": "probe"}, {"op": "return", "e": 3}],
+        [{"op": "probe"}, {"op": "return", "e": 4}]],
+    "params": {"kinds": {}, "model_blind": True},
+}
 _EXTRA = [(2, dict(_base, name="ctx-faults", p_ctx_fault=0.8, p_with=0.45, p_item=0.6, p_probe=0.25, p_nonasync=0.1)),
           (1, dict(_base, name="cancel-self", p_flush_raise=0.8, p_via_cancel=0.8, p_item=0.65, nkinds=3)),
-          (1, dict(_base, name="base-errors", p_base_err=1.0, p_flush_raise=0.5, p_item=0.6))]
+          (1, dict(_base, name="base-errors", p_base_err=1.0, p_flush_raise=0.5, p_item=0.6)),
+          (1, dict(_base, name="flush-probes", p_flush_ctx=0.9, p_item=0.6, p_probe=0.2, p_sync=0.25, nkinds=2, p_flush_raise=0.25)),
+          (1, dict(_base, name="returns-future", p_ret_fut=0.35, p_let=0.2, p_sync=0.25, p_probe=0.25, p_ctx_fault=0.0))]
 
 mach.install(globals(), "C08", ("EvProbe", "EvSched"), ("C08:",), PROFILES, n_quick=300, n_thorough=25000,
              nontrivial=_nontrivial, level="proof",
-             corpus=[_GUARD_BATCH, _GUARD_NESTED, _GUARD_CAUGHT, _STALE_BATCH, _RESUME_FAILS, _CANCEL_SELF],
-             extra_gen=mach.extra_profiles(_EXTRA, 60, 4000))
+             corpus=[_GUARD_BATCH, _GUARD_NESTED, _GUARD_CAUGHT, _STALE_BATCH, _RESUME_FAILS, _CANCEL_SELF, _RETURNS_FUTURE],
+             extra_gen=mach.extra_profiles(_EXTRA, 100, 6000))
